@@ -799,6 +799,7 @@ def run(ctx):
                         "sha256 injective on the paths of one plan (patch file names)"]
     os.umask(0o022)          # the expected modes do not depend on the caller's umask
     ctx.prove("RModel.Props.C01")
+    ctx.prove("RModel.Props.Compose")      # planner -> apply -> undo chained (C08 + C02/C05 + C01)
     ok, msg = common.cargo_build()
     if not ok:
         ctx.broke("build", "cargo", msg)
